@@ -163,4 +163,26 @@ example : sendW (fun j => if j = 5 then 0 else j * 7 + 1) 5 (recvU (fun j => j *
     ∧ sendW (fun j => if j = 5 then 0 else j * 7 + 1) 5 (recvU (fun j => j * 7 + 1) 0xabc) 1
       = recvV (fun j => j * 7 + 1) 1 := by decide
 
+/-- the collision-freeness hypothesis `hinj` of `other_differs_partial` is satisfiable: an oracle that answers a
+    transcript with the concatenation of its message payloads does not collide on the randomisation queries
+    (and `packedNabla rc ≠ 0` holds e.g. for `rc = [1]`, see C04) -/
+example : ∃ h : Query → Id Bytes, ∀ (sid : Bytes) (j k r r' : ℕ),
+    h (randQ sid j r k) = h (randQ sid j r' k) → randQ sid j r k = randQ sid j r' k := by
+  refine ⟨fun q => match q with
+    | .merlin t => t.ops.flatMap fun op => match op with
+        | .msg _ d => d
+        | _ => []
+    | _ => [], ?_⟩
+  intro sid j k r r' heq
+  have hpay : ∀ x : ℕ, (List.replicate x (TOp.chal [] KAPPA_BYTES)).flatMap (fun op => match op with
+      | .msg _ d => d
+      | _ => []) = [] := by
+    intro x; induction x with
+    | zero => rfl
+    | succ x ih => rw [List.replicate_succ, List.flatMap_cons, ih]; rfl
+  simp only [randQ, randT, Transcript.appendMessage, Transcript.appendU64, Transcript.new, List.nil_append,
+    List.flatMap_cons, List.append_nil, hpay, List.cons_append] at heq
+  have hrow : natToLe LAMBDA_C_BYTES r = natToLe LAMBDA_C_BYTES r' := List.append_cancel_left heq
+  simp only [randQ, randT, Transcript.appendMessage, hrow]
+
 end SlVerif.C03
